@@ -64,6 +64,23 @@ def c18(pid, tier, t0):
         "letters outside the editor's joining table may stay unshaped (the property allows replacing only by a correct form)"])
 
 
+@check("C10")
+def c10(pid, tier, t0):
+    exe = nv.build_harness("c10_regex", "plain", ["c10_regex.c"], extra_flags=["-O2"])
+    res = nv.run_shards(exe, ["tier=" + tier, "deadline=%d" % dl(tier)], nv.NCPU, dl(tier) + 60)
+    return nv.finish(pid, tier, t0, res, {
+        "rule": "all pattern ASTs of <= ast_size nodes over atoms {a,b,.,[ab],[^a],[[:alpha:]],U+00E9,^,$,\\<,\\>} and constructors {concat,|,(),*,+,?,{0,1},{1,2},{2},{2,}} "
+                "x all subjects of <= subject_len characters over {a,b,B,space,U+00E9}+newline x icase x notbol x noteol; pattern sets = all ordered pairs of small ASTs "
+                "with and without an unused slot; non-trivial/distinct = distinct (pattern, subject, reported spans) among matches",
+        "depth_bound": res.stats.get("ast_size"),
+        "explanation": "every reported span checked against the all-spans relation (genuine), leftmost start, no missed match when the depth counter stayed 0, "
+                       "and equality with the greedy/left-biased first-parse including all group spans for patterns without a nullable unbounded repetition; "
+                       "the depth counter must stay 0 on all such small cases and on the long-run family",
+    }, ["reference conventions of DESIGN.md appendix A (subject includes its newline; ^/$ also at embedded newlines; ASCII-only case folding; a group keeps its last participating iteration)",
+        "patterns with an unbounded repetition of a nullable sub-term keep only the genuine / leftmost / not-missed checks",
+        "the depth-limit counter is the only hook (regex.c, NEATVI_VERIF)"])
+
+
 def replay(path):
     print("replay artefact:")
     print(open(path).read())
